@@ -291,6 +291,80 @@ pub fn fail_chain_grid(sigma: usize) -> Vec<Family> {
     v
 }
 
+/// Second fail-chain template: a state s = x.a.b with a child on c whose fail chain runs over the
+/// non-output state a.b (no c child) to the *output* state b, which has a c child because the longer
+/// pattern b.c exists: { x.a.b.c.z, a.b.d, b.c, b }. Every assignment of the six roles to `sigma`
+/// letters; the leftmost-first check builds each in all 24 registration orders.
+pub fn fail_chain_grid2(sigma: usize) -> Vec<Family> {
+    let letters = [b'a', b'b', b'c', b'd', b'x', b'y'];
+    let mut v = Vec::new();
+    for code in 0..sigma.pow(6) {
+        let mut r = [0u8; 6];
+        let mut k = code;
+        for x in r.iter_mut() {
+            *x = letters[k % sigma];
+            k /= sigma;
+        }
+        let [x, a, b, c, z, d] = r;
+        let mut set = std::collections::BTreeSet::new();
+        set.insert(vec![x, a, b, c, z]);
+        set.insert(vec![a, b, d]);
+        set.insert(vec![b, c]);
+        set.insert(vec![b]);
+        if set.len() == 4 {
+            v.push(Family { name: format!("failchain2_{sigma}_{code}"), pats: set.into_iter().collect(), utf8: true });
+        }
+    }
+    v
+}
+
+/// Wide deep states: a prefix p of 3-5 letters over {a, c} (self-overlapping prefixes included) with
+/// five or six children, some of whose labels also occur in p - so that the fail chain of p's state
+/// has children on a subset of the same labels.
+pub fn wide_state_grid() -> Vec<Family> {
+    let mut v = Vec::new();
+    let child_sets: [&[u8]; 6] = [b"bcdef", b"abcde", b"acdef", b"abdef", b"abcdef", b"acefg"];
+    let mut prefixes: Vec<Vec<u8>> = Vec::new();
+    let mut layer: Vec<Vec<u8>> = vec![vec![]];
+    for l in 1..=5 {
+        let mut next = Vec::new();
+        for w in &layer {
+            for &c in b"ac" {
+                let mut x = w.clone();
+                x.push(c);
+                next.push(x);
+            }
+        }
+        if l >= 2 {
+            prefixes.extend(next.iter().cloned());
+        }
+        layer = next;
+    }
+    for p in &prefixes {
+        for (si, cs) in child_sets.iter().enumerate() {
+            let mut set = std::collections::BTreeSet::new();
+            for &c in cs.iter() {
+                let mut x = p.clone();
+                x.push(c);
+                set.insert(x);
+            }
+            // a second variant with one more pattern that makes a suffix of p a wide state as well
+            v.push(Family { name: format!("wide_{}_{si}", String::from_utf8_lossy(p)), pats: set.iter().cloned().collect(), utf8: true });
+            if p.len() >= 3 {
+                let mut set2 = set.clone();
+                for &c in cs.iter().take(3) {
+                    let mut x = p[p.len() - 2..].to_vec();
+                    x.push(c);
+                    x.push(b'z');
+                    set2.insert(x);
+                }
+                v.push(Family { name: format!("wide2_{}_{si}", String::from_utf8_lossy(p)), pats: set2.into_iter().collect(), utf8: true });
+            }
+        }
+    }
+    v
+}
+
 /// Families for the leftmost kinds only (the layout is irrelevant there, so they are built with the
 /// default settings only): sparse mutant families.
 pub fn leftmost_shape_families(level: u32, seed: u64) -> Vec<Family> {
@@ -497,6 +571,20 @@ pub fn char_families(level: u32, seed: u64) -> Vec<Family> {
         v.push(fam("chars1000_single", strings_over(&chars_from(0x1000, 1000), 1)));
     }
     v
+}
+
+/// 100 000 pseudo-random 5-byte patterns (an array of about 1 300 blocks).
+pub fn huge_random_5byte(seed: u64) -> Vec<Vec<u8>> {
+    let mut x = 0x1234_5678_9abc_def1u64 ^ seed;
+    let mut set = std::collections::BTreeSet::new();
+    while set.len() < 100_000 {
+        x ^= x << 13;
+        x ^= x >> 7;
+        x ^= x << 17;
+        let p: Vec<u8> = (0..5).map(|i| (x >> (8 * i)) as u8).collect();
+        set.insert(p);
+    }
+    set.into_iter().collect()
 }
 
 pub fn nfb_values(level: u32) -> Vec<Option<u32>> {
